@@ -1,1 +1,170 @@
-// run-time support for generated clients
+//! vt: run-time support for the generated client crates (DESIGN 3.2, observations R).
+//!
+//! * `block_on`: a tiny single-threaded executor (no tokio in the sandbox's generated crates)
+//! * `ev!` / `emit`: NDJSON event log on stdout with per-run sequence numbers (no wall clock)
+//! * `CountingAlloc`: a counting global allocator; counting is paused while logging
+//! * `addr`: identity of a borrowed receiver as a hex string (TLC integers are 32-bit)
+
+use std::alloc::{GlobalAlloc, Layout, System};
+use std::cell::Cell;
+use std::future::Future;
+use std::pin::pin;
+use std::sync::atomic::{AtomicU64, Ordering};
+use std::task::{Context, Poll, RawWaker, RawWakerVTable, Waker};
+
+fn noop_raw_waker() -> RawWaker {
+    fn no_op(_: *const ()) {}
+    fn clone(_: *const ()) -> RawWaker {
+        noop_raw_waker()
+    }
+    static VTABLE: RawWakerVTable = RawWakerVTable::new(clone, no_op, no_op, no_op);
+    RawWaker::new(std::ptr::null(), &VTABLE)
+}
+
+/// Drives a future to completion on the current thread. Returns the number of polls as well.
+pub fn block_on_counted<F: Future>(fut: F) -> (F::Output, u32) {
+    let waker = unsafe { Waker::from_raw(noop_raw_waker()) };
+    let mut cx = Context::from_waker(&waker);
+    let mut fut = pin!(fut);
+    let mut polls = 0;
+    loop {
+        polls += 1;
+        if let Poll::Ready(v) = fut.as_mut().poll(&mut cx) {
+            return (v, polls);
+        }
+        if polls > 1_000_000 {
+            panic!("vt::block_on: future never completes");
+        }
+    }
+}
+
+pub fn block_on<F: Future>(fut: F) -> F::Output {
+    block_on_counted(fut).0
+}
+
+/// A future that is pending once (so that `.await` points are real suspension points).
+pub struct YieldOnce(bool);
+pub fn yield_once() -> YieldOnce {
+    YieldOnce(false)
+}
+impl Future for YieldOnce {
+    type Output = ();
+    fn poll(mut self: std::pin::Pin<&mut Self>, cx: &mut Context<'_>) -> Poll<()> {
+        if self.0 {
+            Poll::Ready(())
+        } else {
+            self.0 = true;
+            cx.waker().wake_by_ref();
+            Poll::Pending
+        }
+    }
+}
+
+// ------------------------------------------------------------------------------------------
+// allocation counting
+// ------------------------------------------------------------------------------------------
+
+pub struct CountingAlloc;
+
+static ALLOCS: AtomicU64 = AtomicU64::new(0);
+thread_local! {
+    static PAUSED: Cell<bool> = const { Cell::new(false) };
+}
+
+unsafe impl GlobalAlloc for CountingAlloc {
+    unsafe fn alloc(&self, layout: Layout) -> *mut u8 {
+        let paused = PAUSED.try_with(|p| p.get()).unwrap_or(true);
+        if !paused {
+            ALLOCS.fetch_add(1, Ordering::Relaxed);
+        }
+        System.alloc(layout)
+    }
+    unsafe fn dealloc(&self, ptr: *mut u8, layout: Layout) {
+        System.dealloc(ptr, layout)
+    }
+    unsafe fn realloc(&self, ptr: *mut u8, layout: Layout, new_size: usize) -> *mut u8 {
+        let paused = PAUSED.try_with(|p| p.get()).unwrap_or(true);
+        if !paused {
+            ALLOCS.fetch_add(1, Ordering::Relaxed);
+        }
+        System.realloc(ptr, layout, new_size)
+    }
+}
+
+pub fn allocs() -> u64 {
+    ALLOCS.load(Ordering::Relaxed)
+}
+
+pub fn paused<R>(f: impl FnOnce() -> R) -> R {
+    let old = PAUSED.with(|p| p.replace(true));
+    let r = f();
+    PAUSED.with(|p| p.set(old));
+    r
+}
+
+/// allocations performed by `f` (logging inside `f` is not counted)
+pub fn count_allocs<R>(f: impl FnOnce() -> R) -> (R, u64) {
+    let before = allocs();
+    let r = f();
+    let after = allocs();
+    (r, after - before)
+}
+
+// ------------------------------------------------------------------------------------------
+// event log
+// ------------------------------------------------------------------------------------------
+
+static SEQ: AtomicU64 = AtomicU64::new(0);
+
+/// Emits one NDJSON event: `{"n":seq,"e":kind, <fields>}`; `fields` is the inside of a JSON object.
+pub fn emit(kind: &str, fields: &str) {
+    paused(|| {
+        let n = SEQ.fetch_add(1, Ordering::SeqCst);
+        if fields.is_empty() {
+            println!("{{\"n\":{n},\"e\":\"{kind}\"}}");
+        } else {
+            println!("{{\"n\":{n},\"e\":\"{kind}\",{fields}}}");
+        }
+    })
+}
+
+pub fn js(s: &str) -> String {
+    let mut out = String::from("\"");
+    for c in s.chars() {
+        match c {
+            '"' => out.push_str("\\\""),
+            '\\' => out.push_str("\\\\"),
+            '\n' => out.push_str("\\n"),
+            c if (c as u32) < 0x20 => out.push_str(&format!("\\u{:04x}", c as u32)),
+            c => out.push(c),
+        }
+    }
+    out.push('"');
+    out
+}
+
+/// identity of a borrowed value
+pub fn addr<T: ?Sized>(r: &T) -> String {
+    paused(|| format!("{:p}", r as *const T as *const ()))
+}
+
+pub fn type_name_of<T: ?Sized>(_: &T) -> &'static str {
+    std::any::type_name::<T>()
+}
+
+/// run `f`, reporting a panic as data (a panic in code under test is an observation, not a tool failure)
+pub fn catch<R>(f: impl FnOnce() -> R) -> Result<R, String> {
+    let prev = std::panic::take_hook();
+    std::panic::set_hook(Box::new(|_| {}));
+    let r = std::panic::catch_unwind(std::panic::AssertUnwindSafe(f));
+    std::panic::set_hook(prev);
+    r.map_err(|p| {
+        if let Some(s) = p.downcast_ref::<&str>() {
+            s.to_string()
+        } else if let Some(s) = p.downcast_ref::<String>() {
+            s.clone()
+        } else {
+            "<panic>".to_string()
+        }
+    })
+}
